@@ -68,7 +68,7 @@ def run(tier, replay):
         ck.violation("model:BB:" + r.violated, "BB.tla violates %s" % r.violated, {"trace": r.trace[-3:]})
     # ---- pass 1: unpinned events
     pub = catalogue.lis_background()
-    refnames = S.bkg_names()
+    refnames = S.bkg_names(port_only=True)
     jobs, meta = [], {}
     n = 0
     for name in pub:
@@ -192,6 +192,39 @@ def run(tier, replay):
                 ck.violation("%s:malformed:%s" % (m.get("name", "?").split("+")[0], bads or "?"),
                              "event %s of %s%s is not well-formed (%s): %s" % (h["id"], m.get("name"), (" with deviate #%d pinned to %r" % m["pin"]) if "pin" in m else "",
                                                                                  bads, " ".join(evl)[:400]), {"event": evl, "job": [j for j in jobs + pins if j.split()[1] == jid][:1]})
+    # ---- the nuclides that exist only in the port: every path of their graphs (extracted from the C++ text), steered, and the
+    #      scheme-level trace validated against the graph: the routine went exactly where the plan sent it, one scheme-level
+    #      draw per fork, the prescribed primitive calls with the prescribed literal arguments, and returned
+    po = S.tab["chains"].get("port_only", {})
+    ck.set("port_only_graphs", sorted(po))
+    if po:
+        pl = []
+        for nm in sorted(po):
+            k0 = S.key_of_call(nm)
+            for p_ in S.all_paths(k0):
+                pl.append(sch.bjob("%s.q%d" % (nm, len(pl)), nm, 1 + len(pl), [S.plan(k0, p_)]))
+        tf = os.path.join(wd, "portonly.ndjson")
+        rc_, res_, tail_ = c01.run_shard(exe, pl, tf)
+        if rc_ != 0:
+            ck.violation("crash-or-hang", "the generation harness died on the port-only paths (rc=%s): %s" % (rc_, tail_[-400:]), None)
+        else:
+            rr, fl = c01.validate_trace(tf)
+            if fl is None:
+                raise vlib.InfraError("TraceScheme(port-only): " + (rr.error or rr.out[-600:]))
+            ck.tlc_stats(rr, "MCTraceScheme(port-only nuclides, %d paths)" % len(pl))
+            ck.set("port_only_paths_followed", len(pl))
+            if fl[0] <= fl[1]:
+                ls = open(tf).read().splitlines()
+                ln = min(fl[0], len(ls))
+                start = ln - 1
+                while start > 0 and '"Reset"' not in ls[start - 1]:
+                    start -= 1
+                ctx = ls[max(0, start - 1):ln + 1]
+                ent = [x for x in ctx if '"Enter"' in x]
+                nm = json.loads(ent[0])["s"] if ent else "?"
+                ck.violation("%s:port-only:path-not-followed" % nm,
+                             "port-only scheme %s left the steered path of its own graph at trace line %d: %s" % (nm, ln, " ".join(ctx)[:600]),
+                             {"trace": ctx})
     ck.set("events_validated", nevents)
     ck.set("evaluations", nevents)
     ck.set("traces_validated_against_impl", nevents)
